@@ -418,6 +418,18 @@ func main() {
 			}
 		}
 	}
+	// very small spheres (cells of 1e-8 .. 1e-5): the vertex bound is relative to the cell, no absolute threshold
+	// may capture a vertex
+	for _, R := range []float64{3e-8, 1e-7, 1e-5} {
+		for _, n := range []int{13, 20} {
+			for _, r := range renderers {
+				R := R
+				ct := v3.Vec{X: 0.07 * R, Y: -0.05 * R, Z: 0.03 * R}
+				ajobs = append(ajobs, ajob{fmt.Sprintf("sphere R=%g centre %v", R, ct), func(p v3.Vec) float64 { return p.Sub(ct).Length() - R }, cube(2.5*R, 2.5*R, 2.5*R), n, r,
+					func(h float64) float64 { return h * h / (8 * (R - h)) * (1 + 1e-6) }, func(h float64) float64 { return math.Sqrt(3) * h }, func(p v3.Vec) v3.Vec { return p.Sub(ct) }, "tiny-sphere"})
+			}
+		}
+	}
 	// exact / 1-Lipschitz solids in 3 poses
 	m3 := func(s sdf.SDF3, err error) sdf.SDF3 {
 		if err != nil {
